@@ -1,7 +1,7 @@
 From Coq Require Import Lia.
 (* C08 — Truncated or failing input never fabricates data. *)
 From VF Require Import Model.Reader Model.Compiler Proofs.ReaderProps Proofs.UnionExt Gen.GeneratedOk.
-From VF Require Proofs.CompilerProps Proofs.CompiledRoundTrip Proofs.CompilerGaps Proofs.CompilerStatic Proofs.CompiledAligned.
+From VF Require Proofs.CompilerProps Proofs.CompiledRoundTrip Proofs.CompilerGaps Proofs.CompilerStatic Proofs.CompilerAligned Proofs.CompiledAligned.
 Open Scope string_scope. Open Scope list_scope. Open Scope Z_scope.
 
 (* For every type without unions and to-end-of-stream arrays (`simple`), every configuration, every input and every cut point k:
@@ -45,6 +45,13 @@ Theorem compiled_aligned_reader_extension_stable : forall c fuel nm fs p,
   forall s1 s2 pos r, 0 <= pos -> read_compiled c fuel true fs s1 pos = Ok r -> read_compiled c fuel true fs (s1 ++ s2) pos = Ok r.
 Proof. exact CompiledAligned.compiled_aligned_extension_stable. Qed.
 
+(* ... and the generated reader of an ALIGNED structure with dynamically sized members (counted, null-terminated arrays, ... - no bit fields) *)
+Theorem compiled_aligned_dynamic_reader_extension_stable : forall c fuel nm fs p,
+  Forall (CompilerAligned.adcls c fuel) fs -> NoDup (map f_name fs) -> CompiledAligned.layout_fits c fs -> compile_plan c true fs = Ok p -> simple (TStruct nm fs true) = true ->
+  forall s1 s2 pos r, 0 <= pos -> read_compiled c fuel true fs s1 pos = Ok r -> read_compiled c fuel true fs (s1 ++ s2) pos = Ok r.
+Proof. exact CompiledAligned.compiled_aligned_dynamic_extension_stable. Qed.
+
+Print Assumptions compiled_aligned_dynamic_reader_extension_stable.
 Print Assumptions extension_stable_with_dynamic_unions.
 Print Assumptions compiled_aligned_reader_extension_stable.
 Print Assumptions compiled_reader_extension_stable.
